@@ -102,6 +102,10 @@ def run_seq(variant, phname, seq, cutoff=3.0, cap0=0.01, V0=3.7, R0=0.1, fault=N
             raise Boom()
         if a == "Y":
             raise Abort()
+        if a == "B":      # the callback runs a complete (short) batt_life() on the SAME system and battery before it answers
+            with contextlib.redirect_stderr(io.StringIO()):
+                s.batt_life("B", cutoff=cutoff, pfunc=lambda: (0.002, 4.3, 0.77), dfunc=lambda t_, i_: (0.0, 4.3, 0.77))
+            a = "c"
         if a in "GNSQ":   # the deplete callback answers nonsense at this call
             return {"G": None, "N": (float("nan"), float("nan"), float("nan")), "S": (st[0], st[1]), "Q": ("1", "2", "3")}[a]
         if a in TERM:
@@ -162,8 +166,26 @@ def check_case(case):
         return res
     bpc = case.get("bpc")
     kw = {}
+    if case.get("dead0"):   # the probed state is already empty / at / below the cutoff: no deplete call at all, the log is the probed state alone
+        V0 = {"cap0": 3.7, "vcut": 3.0, "vbelow": 2.5}[case["dead0"]]
+        c0 = 0.0 if case["dead0"] == "cap0" else cap0
+        s, calls, log, exc, npf = run_seq(variant, phname, "Z", cap0=c0 if c0 else 1e-300, V0=V0) if False else run_seq(variant, phname, "cZ", cap0=c0, V0=V0)
+        if exc is not None:
+            res.v(("C18.raised", type(exc).__name__, "dead-initial-state"), "%s" % exc)
+            return res
+        if calls:
+            res.v(("C18.deplete-called-on-dead-battery", case["dead0"]), "%d deplete calls although the probed state is (cap %r, V %r), cutoff %r" % (len(calls), c0, V0, cutoff))
+        if len(log) != 1 or npf != 1:
+            res.v(("C18.log-length", "dead-initial-state"), "%d rows, %d probe calls" % (len(log), npf))
+        res.nontrivial = 1
+        res.classes.add("dead-initial")
+        return res
+    if case.get("cap0"):
+        cap0 = case["cap0"]
     if case.get("slow"):  # a battery close to the voltage-collapse point: the solver needs many sweeps; the current must still be the converged one
         kw = dict(V0=3.6, R0=1.78, cutoff=1.0)
+    if case.get("cap0"):
+        kw = dict(kw, cap0=case["cap0"])
     s, calls, log, exc, npf = run_seq(variant, phname, seq, bpc=bpc, alias=case.get("alias", False), vdecl=case.get("vdecl", 5.0), pre_edit=case.get("pre_edit", False), **kw)
     if case.get("slow"):
         cutoff = 1.0
@@ -237,6 +259,11 @@ def gen_cases(tier):
                     yield dict(variant=variant, phases=phname, seq="".join(body) + "Z", vdecl=0.0)
                     if phname != "blank":
                         yield dict(variant=variant, phases=phname, seq="".join(body) + "K", pre_edit=True)
+            for d0 in ("cap0", "vcut", "vbelow"):
+                yield dict(variant=variant, phases=phname, seq="cZ", dead0=d0)
+            for c0 in (100, 200.0, 99.999, 1e-4, 5):   # capacities around the Ah / mAh display switch (an int among them)
+                for sq in ("Z", "cZ", "cvK"):
+                    yield dict(variant=variant, phases=phname, seq=sq, cap0=c0)
             for bad in ("C", "L", "nope", "R"):
                 yield dict(variant=variant, phases=phname, seq="", bad_name=bad)
 
